@@ -173,7 +173,14 @@ def run_case(ctx, n, vkind, ins, base=(), tag=''):
     hm, conv = make_hashmap(n, vkind, cells)
     flags = ''
     exp = {}            # independent expectation: int key -> value token (last write wins)
+    interim = []        # results of serialize() calls made DURING the history (token '!'): hash | 'none' | 'err'
     for ktok, vtok in ins:
+        if ktok == '!':
+            # an interim serialize() on the same object: must not influence anything that follows (nothing may be memoised)
+            c0 = call(hm.serialize)
+            interim.append('err' if is_err(c0) else ('none' if c0 is None else c0.hash.hex()))
+            ctx.count('interim-serialize')
+            continue
         key, hk = lib_key(ktok)
         before = dict(hm.map)
         r = call(lambda: hm.set(key, conv(vtok), hash_key=hk))
@@ -201,7 +208,8 @@ def run_case(ctx, n, vkind, ins, base=(), tag=''):
     if sorted(hm.map) != sorted(exp):
         ctx.fail('keys-aliased', 'the stored key set differs from the accepted keys', inp, sorted(hm.map)[:8], sorted(exp)[:8])
         return
-    line = f"hmser {G.dag_line(list(base))[8:] if base else '-'} {n} {vkind} {';'.join(k + '=' + v for k, v in ins) or '-'}"
+    line = f"hmser {G.dag_line(list(base))[8:] if base else '-'} {n} {vkind} {';'.join('!' if k == '!' else k + '=' + v for k, v in ins) or '-'}"
+    tail = (' ' + '.'.join(interim)) if interim else ''
     cell = call(hm.serialize)
     if not exp:
         if cell is not None:
@@ -214,7 +222,7 @@ def run_case(ctx, n, vkind, ins, base=(), tag=''):
         for nm, f in (('load_dict', lambda: sd.begin_parse().load_dict(n)), ('preload_dict', lambda: sd.begin_parse().preload_dict(n))):
             if call(f) is not None:
                 ctx.fail(f'empty-{nm}', f'{nm} of an empty dictionary did not return None', inp, repr(call(f)), None)
-        ctx.expect_model(line, f"ok {flags or '-'} none -", tag)
+        ctx.expect_model(line, f"ok {flags or '-'} none -{tail}", tag)
         return
     encs = {k: val_enc(vkind, v) for k, v in exp.items()}
     fits = all(e is not None for e in encs.values())
@@ -225,7 +233,7 @@ def run_case(ctx, n, vkind, ins, base=(), tag=''):
         if fits:
             ctx.fail('serialize-raised', f'serialize() raised although every cell fits ({cell[1]})', inp, cell, 'cell')
             return
-        ctx.expect_model(line, f'ok {flags} err -', tag)
+        ctx.expect_model(line, f'ok {flags} err -{tail}', tag)
         return
     if not fits:
         ctx.fail('overflow-not-raised', 'serialize() returned a cell although the reference dictionary does not fit', inp, 'cell', 'error')
@@ -278,7 +286,7 @@ def run_case(ctx, n, vkind, ins, base=(), tag=''):
     if sd.bits.to01() != '1' or len(sd.refs) != 1 or sd.refs[0].hash != cell.hash:
         ctx.fail('store-dict', 'store_dict(cell) is not a 1 bit and one reference', inp, repr(sd), '1 + ref')
         return
-    ctx.expect_model(line, f'ok {flags} {cell.hash.hex()} ok {want}', tag)
+    ctx.expect_model(line, f'ok {flags} {cell.hash.hex()} ok {want}{tail}', tag)
 
 
 # ----------------------------------------------------------------------------- case generation
@@ -332,6 +340,23 @@ def run(ctx):
         n = rng.choice([1, 2, 3, 4, 8])
         seq = [rng.randrange(1 << n) for _ in range(rng.randrange(2, 9))]
         int_case(ctx, n, seq, rng.choice(['u5', 'i7', 'c']), 'repeat')
+    # object histories: serialize() called in the middle of the writes (before an overwrite, before a new key, at the start);
+    # the final cell and every interim cell must be those of the map at that moment (nothing memoised between calls)
+    for t in range(ctx.n(400, 4000)):
+        n = rng.choice([1, 2, 3, 4, 8, 32])
+        vk = rng.choice(['u5', 'i7', 'c', 'u5'])
+        keys = [rng.randrange(1 << n) for _ in range(rng.randrange(1, 4))]
+        seq = []
+        for _ in range(rng.randrange(2, 10)):
+            k = rng.choice(keys) if rng.random() < 0.7 else rng.randrange(1 << n)
+            seq.append((f'i:{k}', val_for(rng, vk, 0)))
+            if rng.random() < 0.45:
+                seq.append(('!', ''))
+        if rng.random() < 0.2:
+            seq.insert(0, ('!', ''))
+        if rng.random() < 0.3:
+            seq.insert(rng.randrange(len(seq) + 1), (f'i:{-1 - rng.randrange(3)}', '1'))      # a rejected key in between
+        run_case(ctx, n, vk, seq, (), f'hist{t}')
     # --- width 4: all non-empty key sets (thorough) / sampled
     if ctx.thorough:
         masks = range(1, 1 << 16)
